@@ -146,8 +146,8 @@ def run(ctx):
     # 'keeps global node numbering ... merging / saving and loading partition data is the inverse bookkeeping'
     from . import c15 as _c15
 
-    _c15.mesh_roundtrip_rule(ctx, "R20.8")
-    owned_union_rule(ctx)
+    ctx.attempt(_c15.mesh_roundtrip_rule, ctx, "R20.8")
+    ctx.attempt(owned_union_rule, ctx)
     simu = repo.cls(SIMU)
 
     r1 = ctx.rule("R20.1", "owned-row restriction: Calc_Energy / Calc_Reaction index the vector and the operator rows by the owned dofs and reduce; Get_dofs selects the owned nodes under MPI", min_instances=4)
